@@ -138,6 +138,13 @@ func (n *VNode) LeaveTo(addr string) error { return n.g.leave(addr) }
 // LeaveCluster runs the real exported Gossip.Leave.
 func (n *VNode) LeaveCluster() error { return n.g.Leave() }
 
+// SetMaxPacketSize changes the packet size limit of the packet listener and
+// the gossiper (both read it on every send).
+func (n *VNode) SetMaxPacketSize(max int) {
+	n.pl.maxPacketSize = max
+	n.g.config.MaxPacketSize = max
+}
+
 // ReportHeard reports an arrival to the node's failure detector.
 func (n *VNode) ReportHeard(id string) { n.fd.Report(id) }
 
